@@ -839,7 +839,9 @@ class VM:
             method_order = ["valueOf", "toString"]
 
         for method_name in method_order:
-            method = value.get(method_name)
+            # _get_property also finds the built-in methods of arrays, typed
+            # arrays and functions (they are not stored as properties)
+            method = self._get_property(value, method_name)
             if method is UNDEFINED or method is NULL:
                 continue
             if isinstance(method, JSFunction):
